@@ -39,3 +39,17 @@ Proof. split; vm_compute; reflexivity. Qed.
 (* the bit-level fact behind every conversion lemma, for ALL values and the four C widths:
    RzIL CAST with fill = (source signed && msb) is the C conversion (6.3.1.3 with wrap-around) *)
 Definition cwidth (w : N) : Prop := w = 8%N \/ w = 16%N \/ w = 32%N \/ w = 64%N.
+
+(* ------------------------------------------------------------------ the general conversion lemma *)
+From RZ.proofs Require Import ExprCorrect.
+(* explicit casts inside arbitrary pure expressions are covered by the expression theorem (props/C02.v
+   states it); here its instance for the fragment, restated so that C03 has its own obligation *)
+Theorem C03_casts_correct_repaired :
+  forall (cfg : config) (rw : regwidth) (E : cenv) (csub : csubs) xi V e st,
+  cfg_fx cfg = all_fixes -> cfg_params cfg = [] -> st_vars st = V -> pfrag V e ->
+  exists pv st', lower_expr cfg e st = OK (IPure pv, st') /\ st_same st st' /\
+    forall cs ms, rel V cs ms ->
+      exists ilv, eval rw ms [] (pv_term pv) = Some ilv /\ shape_pv pv ilv /\
+        forall fuel cs' cv, ceval E csub xi fuel cs e = Some (cs', cv) -> cs' = cs /\ agrees pv cv ilv.
+Proof. exact expr_correct_unconditional. Qed.
+Print Assumptions C03_casts_correct_repaired.
